@@ -171,7 +171,7 @@ func checkC20(c *Ctx) {
 				return
 			}
 			p := pathOf(st.Addr)
-			if len(f.Params) > 0 && strings.HasSuffix(typeShort(f.Params[0].Type()), "assets.assets") && (p == f.Params[0].Name()+".config" || strings.HasPrefix(p, f.Params[0].Name()+".config.")) {
+			if len(f.Params) > 0 && strings.HasSuffix(typeShort(f.Params[0].Type()), "assets.assets") && (p == pname(f.Params[0])+".config" || strings.HasPrefix(p, pname(f.Params[0])+".config.")) {
 				cfgStores = append(cfgStores, st)
 			}
 		})
